@@ -243,3 +243,56 @@ Proof.
   intros. split; [|split; reflexivity].
   split; [intros [H1 H2 H3 H4]; auto|intros (H1 & H2 & H3 & H4); constructor; assumption].
 Qed.
+
+(** * The ABI entry points themselves (tie by translation, T8)
+
+    The exported functions [shopify_function_output_new_bool / _null / _i32 / _f64 / _utf8_str / _interned_utf8_str /
+    _object / _array / finish_object / finish_array] and the native [finalize] of provider/src/write.rs are regenerated
+    too ([Context::with_mut(|context| ..)] around one method, the argument conversion [bool != 0], the packing of status
+    and destination into one double-width word).  They agree with [Writer.step] and [Writer.finalize]. *)
+Theorem C03_code_abi_scalars : forall W trap gc c, R gc c ->
+  (forall v, agree_ctx gc c (Context_shopify_function_output_new_bool W trap gc v) (step W trap c (OBool v))) /\
+  agree_ctx gc c (Context_shopify_function_output_new_null W trap gc) (step W trap c ONull) /\
+  (forall z, agree_ctx gc c (Context_shopify_function_output_new_i32 W trap gc z) (step W trap c (OI32 z))) /\
+  (forall b, agree_ctx gc c (Context_shopify_function_output_new_f64 W trap gc b) (step W trap c (OF64 b))).
+Proof.
+  intros W trap gc c HR. repeat split; intros.
+  - apply gen_abi_new_bool; exact HR.
+  - apply gen_abi_new_null; exact HR.
+  - apply gen_abi_new_i32; exact HR.
+  - apply gen_abi_new_f64; exact HR.
+Qed.
+
+Theorem C03_code_abi_containers : forall W trap gc c, R gc c ->
+  (forall len, agree_ctx gc c (Context_shopify_function_output_new_object W trap gc len) (step W trap c (OStartObj len))) /\
+  (forall len, agree_ctx gc c (Context_shopify_function_output_new_array W trap gc len) (step W trap c (OStartArr len))) /\
+  agree_ctx gc c (Context_shopify_function_output_finish_object W trap gc) (step W trap c OFinObj) /\
+  agree_ctx gc c (Context_shopify_function_output_finish_array W trap gc) (step W trap c OFinArr).
+Proof.
+  intros W trap gc c HR. repeat split; intros.
+  - apply gen_abi_new_object; exact HR.
+  - apply gen_abi_new_array; exact HR.
+  - apply gen_abi_finish_object; exact HR.
+  - apply gen_abi_finish_array; exact HR.
+Qed.
+
+Theorem C03_code_abi_interned_string : forall W trap gc c id, R gc c ->
+  (forall s, nthN (interned c) id = Some s -> lenN (out c) + 5 + lenN s < 2 ^ W) ->
+  lenN (concat (interned c)) < 2 ^ W ->
+  agree_ctx gc c (Context_shopify_function_output_new_interned_utf8_str W trap gc id) (step W trap c (OIStr id)).
+Proof. exact gen_abi_new_interned. Qed.
+
+(** the string write returns [status * 2^W + destination] (high word: status, low word: pointer) *)
+Theorem C03_code_abi_string_packing : forall W trap gc len, 0 < W ->
+  match Context_allocate_utf8_str W trap gc len, Context_shopify_function_output_new_utf8_str W trap gc len with
+  | GOk (gc1, (code, dst)), GOk (gc2, packed) =>
+      gc2 = gc1 /\ (code < 2 ^ W -> ptr_val dst < 2 ^ W -> packed = code * 2 ^ W + ptr_val dst)
+  | GPanic _, GPanic _ => True
+  | _, _ => False
+  end.
+Proof. exact gen_abi_new_utf8_str. Qed.
+
+(** native finalisation refuses unless the root value is closed; it hands out exactly the output bytes and changes nothing *)
+Theorem C03_code_abi_finalize : forall W trap gc c, R gc c ->
+  Context_shopify_function_output_finalize_and_return_msgpack_bytes W trap gc = GOk (gc, finalize c).
+Proof. exact gen_abi_finalize. Qed.
